@@ -47,14 +47,15 @@ Proof.
     rewrite IH; [lia|assumption|assumption|]. intros c' Hc' Hne. apply Hz; [now right|assumption].
 Qed.
 
-(** A ring: [pos] numbers the components along the data flow (injective on the composition); every component is
-    time-stepped and has exactly one input, fed by the component at the previous position (the first by the last),
-    over a link with pass-through adapters, buffers and non-negative fixed delays summing to [D c]. *)
+(** A ring: [pos] numbers the components along the data flow (injective on the composition), starting at a
+    time-stepped component; the other members may be time-stepped or pull-based (largest step 0).  Every component has
+    exactly one input, fed by the component at the previous position (the first by the last), over a link with
+    pass-through adapters, buffers and non-negative fixed delays summing to [D c]. *)
 Record ring (cs : composition) (pos : nat -> nat) (D : nat -> Z) : Prop := {
   r_pos_lt : forall c, (c < length cs)%nat -> (pos c < length cs)%nat;
   r_pos_inj : forall c c', (c < length cs)%nat -> (c' < length cs)%nat -> pos c = pos c' -> c = c';
   r_link : forall c, (c < length cs)%nat ->
-     is_time cs c = true /\
+     (pos c = 0%nat -> is_time cs c = true) /\
      exists inp, c_inputs (getc cs c) = [inp] /\ (fst (i_src inp) < length cs)%nat /\
        pos (fst (i_src inp)) = (if Nat.eqb (pos c) 0 then length cs - 1 else pos c - 1)%nat /\
        edge_delay (i_chain inp) = Some (D c)
@@ -95,7 +96,7 @@ Section Ring.
       exfalso. apply Hne. apply (r_pos_inj cs pos D R); [now apply in_l|exact Hc|exact E].
   Qed.
 
-  Lemma ring_sufficient : sufficient cs ring_phi (fun _ => O).
+  Lemma ring_sufficient : sufficient cs ring_phi pos.
   Proof.
     split.
     - intros c k inp Hk. right.
@@ -131,7 +132,10 @@ Section Ring.
         rewrite zsum_add, (at_pos c Hc). assert (Hw : w c = S_of cs c - D c) by reflexivity. lia.
     - intros c k inp Hk Ht _.
       destruct (Nat.lt_ge_cases c n) as [Hc|Hc].
-      + destruct (r_link cs pos D R c Hc) as [Ht' _]. congruence.
+      + right. destruct (r_link cs pos D R c Hc) as [Ht' [inp0 [Hin [Hp [Hpos Hd]]]]].
+        rewrite Hin in Hk. destruct k as [|k]; [|destruct k; discriminate]. injection Hk as <-.
+        destruct (Nat.eqb_spec (pos c) 0) as [E0|E0]; [rewrite (Ht' E0) in Ht; discriminate|].
+        rewrite Hpos. lia.
       + unfold getc in Hk. rewrite nth_overflow in Hk by (fold n; lia). simpl in Hk. destruct k; discriminate.
   Qed.
 End Ring.
@@ -141,5 +145,5 @@ Theorem ring_total_delay_suffices cs pos D :
   zsum (S_of cs) (seq 0 (length cs)) <= zsum D (seq 0 (length cs)) ->
   exists phi rank, sufficient cs phi rank.
 Proof.
-  intros R E. exists (ring_phi cs pos D), (fun _ => O). now apply ring_sufficient.
+  intros R E. exists (ring_phi cs pos D), pos. now apply ring_sufficient.
 Qed.
